@@ -335,9 +335,9 @@ def run(ctx, report: Report) -> None:
             for p_ in problems:
                 r3.violation(f'css_match.{q} memo {cache} {p_[:40]}', mmod.where(c), f'{q}: memo {cache}: {p_}')
 
-    from .c13 import meta_memo_rule
+    from .sem import lang_memo_table
     n_before = len(r3.findings)
-    meta_memo_rule(ctx, r3)
+    lang_memo_table(ctx, r3)
     for f in r3.findings[n_before:]:
         f.rule = 'C04-R3'
 
